@@ -128,6 +128,7 @@ def opAssign (start topics subs resp impl : String) : String :=
 
 inductive TEv
   | m (e : CEv)
+  | l (e : CEv)      -- event of the second commit loop (a late-started loop of an ended generation)
   | ret (id : Nat) (res : String)
   | gnew (a : List (TP × Int))
   | fetch (ok : Bool)
@@ -171,7 +172,7 @@ def passedSoFar (past : List TEv) : List (TP × Int) :=
 def monCommitLeHanded (es : List TEv) : Option String :=
   scan (fun past e =>
     match e with
-    | .m (.attempt offs _) =>
+    | .m (.attempt offs _) | .l (.attempt offs _) =>
       let passed := passedSoFar past
       match offs.find? (fun o => match maxFor o.1 passed with | some m => decide (o.2 > m + 1) | none => true) with
       | some o => some s!"commit-beyond-handed:{showEntry o}"
@@ -200,7 +201,7 @@ def monSyncRecorded (sync : Bool) (es : List TEv) : Option String :=
 def monBelieved (es : List TEv) : Option String :=
   scan (fun past e =>
     match e with
-    | .m (.attempt offs true) =>
+    | .m (.attempt offs true) | .l (.attempt offs true) =>
       match past with
       | .ack offs' false :: _ => if offs' == offs then some s!"commit-believed-but-refused:{showEntries offs}" else none
       | _ => none
@@ -211,9 +212,9 @@ def monCommitIds (es : List TEv) : Option String :=
   scan (fun past e =>
     match e with
     | .ids false gid m =>
-      match past.find? (fun p => match p with | .ids true _ _ => true | _ => false) with
-      | some (.ids true gid' m') => if gid == gid' && m == m' then none else some s!"commit-with-foreign-generation:{gid}/{m}!={gid'}/{m'}"
-      | _ => some "commit-outside-a-commit-loop"
+      -- (with two loops active — a late-started one — the request must carry the ids of one of the started loops)
+      if past.any (fun p => match p with | .ids true gid' m' => gid == gid' && m == m' | _ => false) then none
+      else some s!"commit-with-foreign-generation:{gid}/{m}"
     | _ => none) [] es 0
 
 /-- the Reader subscribes with exactly the generation's assignment offsets -/
@@ -242,8 +243,12 @@ def showLPC (p : LPC) : String := (((toString (repr p)).replace "\n" " ").take 1
 
 /-- `att:<offs>:<library's conclusion>:<coordinator's decision>` becomes the coordinator's decision followed by the
 attempt as the library saw it; the 3-field form means both agree -/
-def parseTEvs (tok : String) : Option (List TEv) :=
-  match tok.splitOn ":" with
+def parseTEvs (tok0 : String) : Option (List TEv) :=
+  let late := tok0.startsWith "L!"
+  let tok := if late then (tok0.drop 2).toString else tok0
+  let wrap (l : Option (List TEv)) : Option (List TEv) :=
+    if late then l.map (·.map fun e => match e with | .m x => .l x | y => y) else l
+  wrap <| match tok.splitOn ":" with
   | ["att", offs, lib, coord, gid, m] => do
     let o ← parseEntries offs
     some [.ids false gid m, .ack o (← parseB coord), .m (.attempt o (← parseB lib))]
@@ -259,20 +264,20 @@ def parseTEvs (tok : String) : Option (List TEv) :=
 /-- trace acceptance by `cstep`; a `ret` (CommitMessages returned) that the model cannot take yet is retried after
 every later event: in loop mode the `CL.Replied` hook sits AFTER the channel send, so the application's return can be
 logged first.  A `ret` that never becomes acceptable is a reject. -/
-def cAccept : CState → List CEv → List CEv → Nat → Option (Nat × CState)
+def cAccept : CState → List CEv2 → List CEv2 → Nat → Option (Nat × CState)
   | s, pend, [], i => if pend.isEmpty then none else some (i, s)
   | s, pend, e :: es, i =>
-    let flush (s : CState) (pend : List CEv) : CState × List CEv :=
-      pend.foldl (fun (acc : CState × List CEv) r => match cstep acc.1 r with
+    let flush (s : CState) (pend : List CEv2) : CState × List CEv2 :=
+      pend.foldl (fun (acc : CState × List CEv2) r => match cstep2 acc.1 r with
         | some s' => (s', acc.2)
         | none => (acc.1, acc.2 ++ [r])) (s, [])
     match e with
-    | .ret _ _ =>
-      match cstep s e with
+    | .main (.ret _ _) =>
+      match cstep2 s e with
       | some s' => cAccept s' pend es (i + 1)
       | none => cAccept s (pend ++ [e]) es (i + 1)
     | _ =>
-      match cstep s e with
+      match cstep2 s e with
       | some s' => let (s'', pend') := flush s' pend; cAccept s'' pend' es (i + 1)
       | none => some (i, s)
 
@@ -281,10 +286,11 @@ def opTrace (mode evs : String) : String :=
   match (toks.mapM parseTEvs).map List.flatten with
   | some es =>
     let sync := mode == "sync"
-    let mevs := es.filterMap (fun e => match e with
-      | .m x => some x
-      | .ret id "nil" => if sync then some (.ret id true) else none
-      | .ret id "fail" => if sync then some (.ret id false) else none
+    let mevs : List CEv2 := es.filterMap (fun e => match e with
+      | .m x => some (.main x)
+      | .l x => some (.late x)
+      | .ret id "nil" => if sync then some (.main (.ret id true)) else none
+      | .ret id "fail" => if sync then some (.main (.ret id false)) else none
       | _ => none)
     let acc := match cAccept {} [] mevs 0 with
       | none => "ok"
